@@ -14,7 +14,7 @@ import (
 func init() {
 	register(&Prop{
 		ID:          "C02",
-		Explanation: "Decides the wiring of tamper-evidence and opacity: the signer feeds the MAC (seed as key; cookie name, base64 value, decimal timestamp in that order) and emits value|timestamp|signature built from those same three strings, while the verifier checks part 2 as the signature over (seed, cookie.Name, part 0, part 1) — same roles, same order, all of name, value and timestamp covered on both sides; cookieSignature keys hmac.New with its first argument, writes every further argument and returns the base64 of Sum; checkHmac compares with hmac.Equal the complete base64-decoded presented and expected signatures (no slicing, trimming or prefix compare) after both decode without error; every non-empty value given to MakeCookieFromOptions derives from SignedValue; session, ticket and CSRF payloads are decoded only from the value Validate returned for that cookie (C01.R7, C03.R2); the split-cookie loader hands the joined cookie itself to Validate; msgpack output of a session or CSRF flows only into Cipher.Encrypt (optionally through lz4Compress) and EncodeSessionState returns only Encrypt's result; what is stored server-side and what is signed into cookies derives from those ciphertexts or from the encoded ticket; every Cipher implementation in use wraps AES (cipher constructors enumerated); decodeTicket, DecodeSessionState and the CSRF decrypt are called only from their reviewed, validate-first callers and tickets are constructed only by newTicket/decodeTicket; a new ticket's id and per-ticket AES key are buffers filled by error-free crypto/rand reads.",
+		Explanation: "Decides the wiring of tamper-evidence and opacity: the signer feeds the MAC (seed as key; cookie name, base64 value, decimal timestamp in that order) and emits value|timestamp|signature built from those same three strings, while the verifier checks part 2 as the signature over (seed, cookie.Name, part 0, part 1) — same roles, same order, all of name, value and timestamp covered on both sides; cookieSignature keys hmac.New with its first argument, writes every further argument and returns the base64 of Sum; checkHmac compares with hmac.Equal the complete base64-decoded presented and expected signatures (no slicing, trimming or prefix compare) after both decode without error; every non-empty value given to MakeCookieFromOptions derives from SignedValue; session, ticket and CSRF payloads are decoded only from the value Validate returned for that cookie (C01.R7, C03.R2); the split-cookie loader hands the joined cookie itself to Validate; msgpack output of a session or CSRF flows only into Cipher.Encrypt (optionally through lz4Compress) and EncodeSessionState returns only Encrypt's result; what is stored server-side and what is signed into cookies derives from those ciphertexts or from the encoded ticket; every Cipher implementation in use wraps AES (cipher constructors enumerated); decodeTicket, DecodeSessionState and the CSRF decrypt are called only from their reviewed, validate-first callers and tickets are constructed only by newTicket/decodeTicket; a new ticket's id and per-ticket AES key are buffers filled by error-free crypto/rand reads. Added during the build: the payload decoders and ticket literals have closed, reviewed caller sets (R7); a new ticket's id and AES key come from successful crypto/rand reads (R8).",
 		NotDecided:  "the cryptography itself; that unkeyed concatenation of name, value and timestamp is unambiguous; base64 laxness; 'decodes to exactly the session' (value semantics over all edits).",
 		Run:         runC02,
 	})
@@ -460,10 +460,11 @@ func runC02R4(c *Ctx) {
 	encryptM := c.Method(rule, "pkg/encryption.Cipher.Encrypt")
 	lz4 := c.Fn(rule, "pkg/apis/sessions.lz4Compress")
 	ess := c.Fn(rule, "(*pkg/apis/sessions.SessionState).EncodeSessionState")
-	csrfEncrypt := c.Fn(rule, "pkg/cookies.encrypt")
-	if marshal == nil || encryptM == nil || lz4 == nil || ess == nil || csrfEncrypt == nil {
+	if marshal == nil || encryptM == nil || lz4 == nil || ess == nil {
 		return
 	}
+	// module helpers the serialised bytes are handed to (today: pkg/cookies.encrypt): their parameter is followed too
+	wrappers := map[*ssa.Function]int{}
 	// every msgpack.Marshal call: the bytes flow only into Encrypt / lz4Compress / csrf encrypt
 	for _, cs := range c.callersOf(marshal) {
 		fn := cs.Parent()
@@ -494,7 +495,10 @@ func runC02R4(c *Ctx) {
 					case cc.IsInvoke() && walk.SameMethod(cc.Method, encryptM):
 					case sc == lz4:
 						follow(x.(ssa.Value), depth+1)
-					case sc == csrfEncrypt:
+					case sc != nil && c.P.InModule(sc) && len(sc.Blocks) > 0 && argIndex(cc, v) >= 0 && argIndex(cc, v) < len(sc.Params):
+						i := argIndex(cc, v)
+						wrappers[sc] = i
+						follow(sc.Params[i], depth+1)
 					default:
 						bad = "passed to " + walk.CalleeName(cc)
 					}
@@ -530,20 +534,23 @@ func runC02R4(c *Ctx) {
 			c.bad(rule, key, p.Exit, "EncodeSessionState can return bytes that are not the cipher's output", p, p.End())
 		}
 	})
-	// csrf encrypt: returns cipher.Encrypt(data)
-	c.Walk(rule, csrfEncrypt, func(p *walk.Path) {
-		rv, ok := p.ReturnDV(0)
-		if !ok || DefinitelyNil(p, rv, p.End()) {
-			return
-		}
-		key := "returns-ciphertext|" + fnKey(csrfEncrypt)
-		cl, ok := extractOfCall(p, rv, 0)
-		if ok && cl.C.IsInvoke() && walk.SameMethod(cl.C.Method, encryptM) && p.Resolve(p.Arg(cl, 0)).V == csrfEncrypt.Params[0] {
-			c.ok(rule, key, p.Exit, "returns cipher.Encrypt(data)")
-		} else {
-			c.bad(rule, key, p.Exit, "the CSRF payload is not returned encrypted", p, p.End())
-		}
-	})
+	// encrypting helpers: return cipher.Encrypt(their data parameter)
+	for w, i := range wrappers {
+		w, i := w, i
+		c.Walk(rule, w, func(p *walk.Path) {
+			rv, ok := p.ReturnDV(0)
+			if !ok || DefinitelyNil(p, rv, p.End()) {
+				return
+			}
+			key := "returns-ciphertext|" + fnKey(w)
+			cl, ok := extractOfCall(p, rv, 0)
+			if ok && cl.C.IsInvoke() && walk.SameMethod(cl.C.Method, encryptM) && p.Resolve(p.Arg(cl, 0)).V == w.Params[i] {
+				c.ok(rule, key, p.Exit, "returns cipher.Encrypt(data)")
+			} else {
+				c.bad(rule, key, p.Exit, "the serialised payload is not returned encrypted", p, p.End())
+			}
+		})
+	}
 	// what is saved server-side: saver(t.id, ciphertext, ...) with ciphertext = EncodeSessionState#0
 	saveSession := c.Fn(rule, "(*pkg/sessions/persistence.ticket).saveSession")
 	if saveSession != nil {
@@ -631,8 +638,11 @@ func runC02R7R8(c *Ctx) {
 		},
 	}
 	for name, callers := range allowed {
-		fn := c.Fn(rule, name)
+		fn := c.P.Func(name)
 		if fn == nil {
+			if name != "pkg/cookies.decrypt" { // the CSRF helper is optional: inlined, its Decrypt call is judged by R3
+				c.Fn(rule, name)
+			}
 			continue
 		}
 		for _, cs := range c.callersOf(fn) {
@@ -726,4 +736,13 @@ func runC02R7R8(c *Ctx) {
 			c.bad(rule, key, p.Exit, sprintf("a ticket is minted on a path where its id/secret are not known to be filled from crypto/rand without error (reads ok:%v secret:%v id:%v): an all-zero key makes the store entry readable and shared", okAll, secretOK, idOK), p, at)
 		}
 	})
+}
+
+func argIndex(cc *ssa.CallCommon, v ssa.Value) int {
+	for i, a := range cc.Args {
+		if a == v {
+			return i
+		}
+	}
+	return -1
 }
